@@ -722,6 +722,14 @@ def stepSt (w : World) (op : String) (sargs : List String) (implOut : String) : 
   | .tiny t => stepTiny t w.kh op sargs
   | .sam s => stepSam s op sargs implOut
 
+def St.sizes : St → Option String
+  | .raw c => some s!"{c.len},{c.cap},{fmtBool c.isEmpty}"
+  | .slru c => some s!"{c.len},{c.cap},{fmtBool c.isEmpty}"
+  | .twoq c => some s!"{c.len},{c.cap},{fmtBool c.isEmpty}"
+  | .arc c => some s!"{c.len},{c.cap},{fmtBool c.isEmpty}"
+  | .wt c => some s!"{c.len},{c.cap},{fmtBool c.isEmpty}"
+  | _ => none
+
 def fmtOutc (o : Outc) : String :=
   let base := s!"{o.res} | {o.st.fmt}"
   let base := match o.cbs with
@@ -729,6 +737,9 @@ def fmtOutc (o : Outc) : String :=
     | none => base
   let base := match o.drops with
     | some d => base ++ s!" | dr={fmtDrops d}"
+    | none => base
+  let base := match o.st.sizes with
+    | some z => base ++ s!" | sz={z}"
     | none => base
   base ++ " | au=ok"
 
